@@ -61,7 +61,8 @@ typedef struct {
 static __thread Blk blks[MAXBLK];
 static __thread int nblk;
 static __thread int in_lib;           /* only library calls are tracked */
-static __thread int fail_next;        /* fail the next calloc made by the library */
+static __thread int fail_next;        /* fail the n-th calloc made by the library in this call (0: none) */
+static __thread int fail_hit;         /* an injected failure was actually delivered */
 static __thread int c_na, c_nf, c_nz, c_badfree, c_fz;   /* per-call counters */
 static __thread int live_blocks;
 
@@ -73,8 +74,9 @@ void *__wrap_calloc(size_t n, size_t sz)
     if (!in_lib)
         return __real_calloc(n, sz);
     c_na++;
-    if (fail_next) {
+    if (fail_next && c_na == fail_next) {
         fail_next = 0;
+        fail_hit = 1;
         return NULL;
     }
     size_t size = n * sz;
@@ -388,6 +390,7 @@ void __attribute__((noinline)) drv_mark_end(void) { __asm__ volatile("" ::: "mem
 static void call_begin(void)
 {
     c_na = c_nf = c_nz = c_badfree = c_fz = 0;
+    fail_hit = 0;
     arenas_snapshot();
     paint_stack();
     in_lib = 1;
@@ -661,6 +664,7 @@ static void do_ctr(void)
         fail_next = 0;
         call_end();
         jint("ret", ret);
+        jint("failed", fail_hit);
         if (obj) {
             jstr("be", be_name_ctr(kind, *vtp));
             jint("ctxnull", *ctxp == NULL);
@@ -778,6 +782,7 @@ static void do_par(void)
         fail_next = 0;
         call_end();
         jint("ret", ret);
+        jint("failed", fail_hit);
         if (obj && ret) {
             jstr("be", be_name_par(kind, h->vtable, h->parallel_size));
             jint("psize", (long)h->parallel_size);
